@@ -465,7 +465,6 @@ func (h *harness) runCase(o opDef, rel relation) {
 	okAll := true
 	// destination: complete output
 	got, gotMode, ok := resolveContent(after, destName)
-	sameFileCopy := def.kind == "copy" && destExisted && bytes.Equal(destBefore, h.multi)
 	switch {
 	case !ok:
 		fail("destination-missing")
@@ -474,10 +473,6 @@ func (h *harness) runCase(o opDef, rel relation) {
 		fail("harness-no-reference-output")
 		okAll = false
 	case !sameOutput(got, ref):
-		if os.Getenv("C03_DEBUG") != "" {
-			os.WriteFile("/tmp/c03-scratch/dbg-got.pdf", got, 0o644)
-			os.WriteFile("/tmp/c03-scratch/dbg-ref.pdf", ref, 0o644)
-		}
 		fail("destination-not-the-complete-output")
 		okAll = false
 	}
@@ -498,7 +493,6 @@ func (h *harness) runCase(o opDef, rel relation) {
 			okAll = false
 		}
 	}
-	_ = sameFileCopy
 	// everything else untouched; no stray files
 	for _, n := range names(after) {
 		if _, known := before[n]; !known && n != destName {
